@@ -4,6 +4,7 @@ from __future__ import annotations
 import ast
 from typing import Any, Dict, List, Optional, Set, Tuple
 
+from .flow import Flow
 from .loader import AnalysisError, ClassInfo, FuncInfo, Program, norm
 from .pathsim import PPath, Sim, const, is_const, mentions, show, walk
 from .report import Ctx
@@ -218,6 +219,143 @@ def rule_hash(ctx: Ctx, rule: str = "hash-fields") -> None:
             ctx.ok(rule, fi.key, construct)
 
 
+def dict_fields(prog: Program, cname: str) -> Set[str]:
+    """State fields the constructor fills with a dictionary (a dict display / dict() / a local built as one)."""
+    init = prog.resolve_method(cname, "__init__")
+    out: Set[str] = set()
+    if init is None:
+        return out
+    me = init.params[0]
+    fl = Flow(init.node)
+
+    def is_dict(e: ast.AST, depth: int = 0) -> bool:
+        if isinstance(e, (ast.Dict, ast.DictComp)):
+            return True
+        if isinstance(e, ast.Call) and isinstance(e.func, ast.Name) and e.func.id == "dict":
+            return True
+        if isinstance(e, ast.Name) and depth < 3:
+            return any(is_dict(d, depth + 1) for d in fl.defs.get(e.id, []))
+        return False
+
+    for node in ast.walk(init.node):
+        tg, val = None, None
+        if isinstance(node, ast.Assign):
+            tg, val = node.targets[0], node.value
+        elif isinstance(node, ast.AnnAssign):
+            tg, val = node.target, node.value
+        if isinstance(tg, ast.Attribute) and isinstance(tg.value, ast.Name) and tg.value.id == me and val is not None and is_dict(val):
+            out.add(tg.attr)
+    return out
+
+
+_ORDER_FREE = {"sorted", "frozenset", "set", "sum", "min", "max", "len", "any", "all", "dict", "Counter"}
+
+
+def _ordered_dict_uses(fn: ast.AST, me: str, fields: Set[str]) -> List[ast.AST]:
+    """Expressions in fn that expose the iteration (= insertion) order of self.<dict field> to what is computed:
+    views / iterations not wrapped in an order-free consumer and not sorted afterwards."""
+    parents: Dict[ast.AST, ast.AST] = {}
+    for nd in ast.walk(fn):
+        for ch in ast.iter_child_nodes(nd):
+            parents[ch] = nd
+    sorted_locals = {
+        nd.func.value.id
+        for nd in ast.walk(fn)
+        if isinstance(nd, ast.Call) and isinstance(nd.func, ast.Attribute) and nd.func.attr == "sort" and isinstance(nd.func.value, ast.Name)
+    }
+
+    def is_field(e: ast.AST) -> bool:
+        return isinstance(e, ast.Attribute) and isinstance(e.value, ast.Name) and e.value.id == me and e.attr in fields
+
+    out = []
+    for nd in ast.walk(fn):
+        view = None
+        if isinstance(nd, ast.Call) and isinstance(nd.func, ast.Attribute) and nd.func.attr in ("items", "keys", "values") and is_field(nd.func.value):
+            view = nd
+        elif is_field(nd):
+            par = parents.get(nd)
+            if isinstance(par, (ast.For, ast.comprehension)) and par.iter is nd:
+                view = nd
+            elif isinstance(par, ast.Call) and nd in par.args and isinstance(par.func, ast.Name) and par.func.id in ("list", "tuple", "str", "repr", "iter", "enumerate", "zip", "map", "hash"):
+                view = nd
+            elif isinstance(par, ast.Starred):
+                view = nd
+        if view is None:
+            continue
+        # climb: an order-free consumer anywhere above (within the statement) neutralises the order
+        cur: ast.AST = view
+        neutral = False
+        stmt = None
+        while cur in parents:
+            par = parents[cur]
+            if isinstance(par, ast.Call) and isinstance(par.func, ast.Name) and par.func.id in _ORDER_FREE and cur in par.args:
+                neutral = True
+                break
+            if isinstance(par, ast.Compare) and isinstance(cur, ast.Call) and isinstance(cur.func, ast.Attribute) and cur.func.attr in ("keys", "items") and cur is view:
+                neutral = True  # dict views compare as sets
+                break
+            if isinstance(par, (ast.DictComp, ast.SetComp)):
+                neutral = True
+                break
+            if isinstance(par, ast.stmt):
+                stmt = par
+                break
+            cur = par
+        if neutral:
+            continue
+        if isinstance(stmt, ast.Assign) and len(stmt.targets) == 1 and isinstance(stmt.targets[0], ast.Name) and stmt.targets[0].id in sorted_locals:
+            continue
+        if isinstance(stmt, ast.AnnAssign) and isinstance(stmt.target, ast.Name) and stmt.target.id in sorted_locals:
+            continue
+        out.append(view)
+    return out
+
+
+def rule_hash_order(ctx: Ctx, rule: str = "hash-order") -> None:
+    """C19: == on a dictionary field ignores insertion order, so __hash__ (and the __str__/__repr__ it hashes) must
+    not expose the iteration order of that field: equal objects built in a different order would hash differently."""
+    prog = ctx.prog
+    n = 0
+    for cname in ["PolyhedralTerm"]:
+        fields = dict_fields(prog, cname)
+        fi = prog.resolve_method(cname, "__hash__")
+        eqf = prog.resolve_method(cname, "__eq__")
+        construct = "%s.__hash__ does not depend on the insertion order of a dictionary field" % cname
+        if fi is None or eqf is None:
+            ctx.cannot_decide(rule, cname + ".__hash__", construct, "anchor vanished")
+            continue
+        if not fields:
+            ctx.cannot_decide(rule, fi.key, construct, "no dictionary state field found in the constructor of %s" % cname)
+            continue
+        # is == itself order-insensitive on these fields?  (a list()/tuple() of a view compared with == would not be)
+        eq_ordered = [
+            nd
+            for nd in ast.walk(eqf.node)
+            if isinstance(nd, ast.Compare)
+            for side in [nd.left] + list(nd.comparators)
+            if isinstance(side, ast.Call) and isinstance(side.func, ast.Name) and side.func.id in ("list", "tuple", "str") and any(isinstance(x, ast.Attribute) and x.attr in fields for x in ast.walk(side))
+        ]
+        if eq_ordered:
+            ctx.cannot_decide(rule, fi.key, construct, "__eq__ itself compares an ordered rendering of the field (%s)" % norm(eq_ordered[0])[:60])
+            continue
+        roots = [(fi, fi.params[0])]
+        for nd in ast.walk(fi.node):
+            if isinstance(nd, ast.Call) and isinstance(nd.func, ast.Name) and nd.func.id in ("str", "repr") and nd.args and isinstance(nd.args[0], ast.Name) and nd.args[0].id == fi.params[0]:
+                sfi = prog.resolve_method(cname, "__str__" if nd.func.id == "str" else "__repr__")
+                if sfi is not None:
+                    roots.append((sfi, sfi.params[0]))
+        bad = []
+        for f, me in roots:
+            n += 1
+            for v in _ordered_dict_uses(f.node, me, fields):
+                bad.append("%s in %s" % (norm(v)[:50], f.key))
+        if bad:
+            ctx.violation(rule, fi.key, construct, "the hash is computed from %s in iteration order, while == compares the dictionary as a mapping" % "; ".join(sorted(set(bad))), where=fi.where)
+        else:
+            ctx.ok(rule, fi.key, construct + " (%s)" % ", ".join(f.key for f, _ in roots))
+    ctx.floor("hash-order functions inspected", n, 1)
+
+
 def rule_copy(ctx: Ctx, rule: str = "copy-fields") -> None:
     """C19 E4: copy() hands a copy of every state field to the constructor in the right slot."""
     prog = ctx.prog
@@ -416,46 +554,79 @@ def rule_nested_le(ctx: Ctx, rule: str = "nested-forall-exists") -> None:
 
 
 def rule_nested_intersect(ctx: Ctx, rule: str = "nested-intersect") -> None:
-    """C17: intersect builds every pairwise conjunction and keeps exactly the non-empty ones."""
+    """C17: intersect builds the conjunction of every pair (one alternative of each side) and keeps exactly the
+    non-empty ones, whatever the flag (assumption-driven: two alternatives a side, every emptiness assignment)."""
+    from itertools import product
+
     prog = ctx.prog
     fi = prog.func("NestedTermList.intersect")
     me, ot, flag = fi.params[0], fi.params[1], fi.params[2]
-    ps = [p for p in Sim(prog, fi, loop_iters=(1,)).paths() if p.terminal == "return"]
+    sides = {("attr", ("param", me), "nested_termlist"): "self", ("attr", ("param", ot), "nested_termlist"): "other"}
+
+    def pair_of(v):
+        if isinstance(v, tuple) and v and v[0] == "bin" and v[1] == "BitOr":
+            x, y = v[2], v[3]
+            if all(isinstance(z, tuple) and len(z) == 4 and z[0] == "iter" and z[1] in sides for z in (x, y)) and {sides[x[1]], sides[y[1]]} == {"self", "other"}:
+                if sides[x[1]] == "other":
+                    x, y = y, x
+                return (x[3], y[3])
+        return None
+
+    allpairs = [(0, 0), (0, 1), (1, 0), (1, 1)]
     n = 0
-    for p in ps:
-        n += 1
-        empt = [e for e in p.events if e["kind"] == "branch" and mentions(e["test"], lambda x: x[0] == "mcall" and x[1] == "is_empty")]
-        apps = [e for e in p.events if e["kind"] == "call" and e["callee"] == ".append"]
-        construct = "intersect: the conjunction of each pair is kept iff it is not empty"
-        okc = len(empt) == 1
-        why = "expected one emptiness test per pair"
-        if okc:
-            t = empt[0]["test"]
-            neg = False
-            while t[0] == "un" and t[1] == "Not":
-                neg = not neg
-                t = t[2]
-            cand = t[2]
-            is_empty = (not empt[0]["taken"]) if neg else empt[0]["taken"]
-            pair_ok = cand[0] == "bin" and cand[1] == "BitOr" and {cand[2][0], cand[3][0]} == {"iter"} and {cand[2][1], cand[3][1]} == {("attr", ("param", me), "nested_termlist"), ("attr", ("param", ot), "nested_termlist")}
-            if not pair_ok:
-                okc = False
-                why = "the candidate is %s, not the conjunction (|) of one alternative of each side" % show(cand, 4)
-            elif is_empty and apps:
-                okc = False
-                why = "an empty conjunction is kept"
-            elif not is_empty and not (len(apps) == 1 and apps[0]["args"] == (cand,)):
-                okc = False
-                why = "a non-empty conjunction is not kept (appended: %s)" % [show(a["args"][0], 3) for a in apps]
-        if okc:
-            # result built from the collected list with the caller's flag
-            v = p.value
-            args = list(v[2]) + [x for _k, x in v[3]] if v[0] in ("call", "new") else []
-            if not (len(args) == 2 and args[1] == ("param", flag) and (not apps or args[0] == apps[0]["recv"])):
-                okc = False
-                why = "result is %s" % show(v, 3)
-        (ctx.ok(rule, fi.key, construct + " @ " + p.label()[:40]) if okc else ctx.violation(rule, fi.key, construct, why, where=fi.where))
-    ctx.floor("intersect paths", n, 2)
+    construct = "intersect: the conjunction of each pair of alternatives is kept iff it is not empty"
+    verdict = None
+    for fl in (True, False):
+        for answers in product([False, True], repeat=4):
+            emp = dict(zip(allpairs, answers))
+            unknown: List[Any] = []
+
+            def assume(v, emp=emp, fl=fl, unknown=unknown):
+                if v == ("param", flag):
+                    return const(fl)
+                if isinstance(v, tuple) and v[0] == "mcall" and v[1] == "is_empty":
+                    pr = pair_of(v[2])
+                    if pr is None or pr not in emp:
+                        unknown.append(v[2])
+                        return None
+                    return const(emp[pr])
+                return None
+
+            ps = Sim(prog, fi, loop_iters=(2,), assume=assume).paths()
+            for p in ps:
+                n += 1
+                if unknown:
+                    verdict = verdict or ("undecided", "an emptiness test is applied to %s, not to the conjunction (|) of one alternative of each side" % show(unknown[0], 4))
+                    continue
+                if p.terminal != "return":
+                    verdict = verdict or ("violation", "raises %s (flag %s, empty pairs %s)" % (p.exc_cls, fl, sorted(k for k, x in emp.items() if x)))
+                    continue
+                apps = [e for e in p.events if e["kind"] == "call" and e["callee"] == ".append"]
+                kept = [pair_of(a["args"][0]) for a in apps]
+                want = {k for k, x in emp.items() if not x}
+                if not apps and mentions(p.value, lambda x: isinstance(x, tuple) and x and x[0] in ("listcomp", "genexp")):
+                    verdict = verdict or ("undecided", "the result list is built by a comprehension (%s), which this rule does not follow" % show(p.value, 3))
+                    continue
+                if None in kept or set(kept) != want or len(kept) != len(set(kept)):
+                    miss = sorted(want - set(k for k in kept if k))
+                    extra = sorted(set(k for k in kept if k) - want)
+                    verdict = verdict or (
+                        "violation",
+                        "with force_empty_intersection=%s and non-empty pairs %s: kept %s%s%s"
+                        % (fl, sorted(want), [k if k else "?" for k in kept], "; non-empty pair(s) %s dropped" % miss if miss else "", "; empty pair(s) %s kept" % extra if extra else ""),
+                    )
+                    continue
+                v = p.value
+                args = list(v[2]) + [x for _k, x in v[3]] if isinstance(v, tuple) and v[0] in ("call", "new") else []
+                if not (len(args) == 2 and args[1] in (("param", flag), const(fl)) and (not apps or args[0] == apps[0]["recv"])):
+                    verdict = verdict or ("violation", "result is %s" % show(v, 3))
+    if verdict is None:
+        ctx.ok(rule, fi.key, construct + " (%d runs)" % n)
+    elif verdict[0] == "undecided":
+        ctx.cannot_decide(rule, fi.key, construct, verdict[1])
+    else:
+        ctx.violation(rule, fi.key, construct, verdict[1], where=fi.where)
+    ctx.floor("intersect paths", n, 32)
 
 
 def rule_nested_ctor(ctx: Ctx, rule: str = "nested-disjoint") -> None:
